@@ -1,11 +1,25 @@
 /-
 Progress (C07): no API call of the consumer can get stuck — in every reachable state in which a
 call is in progress some internal step of the pipeline is enabled, also in the adversarial
-condition-variable model without spurious wake-ups; and a ranking function for the internal
-steps.
+condition-variable model without spurious wake-ups.
+
+Top-level module of the progress proof; the parts:
+* PipelineLiveBase   — pc correspondence `Live.pcInv`, `read_thread_enabled`, `Live.hdrSet`,
+                       `Live.worker_enabled`, `Live.parser_enabled_or_waiting`, `no_stuck_state_partial`
+                       (from the six facts `RunData`, `Typed`, `InqFutReady`, `InqMarker`, `OutqMarker`,
+                       `OutFutReady` as hypotheses)
+* PipelineLiveIds    — future ids (`Live.n_rpc`, `Live.n_ppc`, `Live.n_work`, `Live.n_fut`)
+* PipelineLiveTyped  — `Live.typed`, `Live.out_fut_ready` (invariants over all reachable states)
+* PipelineLiveData   — `Live.run_data` (needs `Cfg.WF`, in particular `chunk_blob` and `chunk_mono`; `next ≤ avail`
+                       from the FIFO invariants `ShapeIn.invP` / `ShapeIn.pget_chunk` of the input queue)
+* PipelineLiveMarker — `Live.outq_marker`
+* PipelineShapeIn    — `inq_marker`, `inq_fut_ready`, `avail_le` (input side)
 -/
-import Osmium.Lemmas.PipelineQ
-import Osmium.Props.C19
+import Osmium.Lemmas.PipelineLiveBase
+import Osmium.Lemmas.PipelineLiveTyped
+import Osmium.Lemmas.PipelineLiveData
+import Osmium.Lemmas.PipelineLiveMarker
+import Osmium.Lemmas.PipelineShapeIn
 
 namespace Osmium.Pipeline
 
@@ -13,604 +27,33 @@ open Osmium.Mon
 
 variable {α : Type} [DecidableEq α]
 
-namespace Live
+/-- `_partial` (kept for reference): `no_stuck_state'` from `Live.AvailMono c` (`next ≤ avail` in every
+    reachable state) as a hypothesis; `Live.availMono` proves it. -/
+theorem no_stuck_state'_partial (c : Cfg α) (wf : c.WF) (hmono : Live.AvailMono c) (s : State α)
+    (h : (machine c).Reachable s) (i4 : Live.OutqMarker s) (h1 : s.cpc ≠ .idle) (h2 : s.cpc ≠ .dead) :
+    ∃ e s', e.isCall = false ∧ (machine c).Step s e s' :=
+  no_stuck_state_partial c wf s h (Live.run_data_partial c wf hmono s h) (Live.typed c s h) (inq_fut_ready c s h)
+    (inq_marker c s h) i4 (Live.out_fut_ready c s h) h1 h2
 
-/-! ## tools -/
+/-- C07 `no_stuck_state` with the osmdata-queue marker fact as a hypothesis. -/
+theorem no_stuck_state' (c : Cfg α) (wf : c.WF) (s : State α) (h : (machine c).Reachable s)
+    (i4 : Live.OutqMarker s) (h1 : s.cpc ≠ .idle) (h2 : s.cpc ≠ .dead) :
+    ∃ e s', e.isCall = false ∧ (machine c).Step s e s' :=
+  no_stuck_state_partial c wf s h (Live.run_data c wf s h) (Live.typed c s h) (inq_fut_ready c s h)
+    (inq_marker c s h) i4 (Live.out_fut_ready c s h) h1 h2
 
-/-- Case split of one pipeline step over all events (queue events split into the thirteen QueueSM
-    events).  In every goal `s'` is replaced by the successor state; for a queue event the new
-    queue state is `q` and `hq : QueueSM.step? _ _ _ = some q`. -/
-syntax "plv_cases " ident " with " ident ident ident : tactic
-macro_rules
-  | `(tactic| plv_cases $e:ident with $h:ident $q:ident $hq:ident) => `(tactic|
-      ((try simp only [Machine.Step, machine] at $h:ident)
-       cases $e:ident <;> (try (rename_i qe; cases qe)) <;>
-         simp only [step?] at $h:ident <;> (repeat' split at $h:ident) <;>
-         simp only [Option.map_eq_some_iff, Option.some.injEq, reduceCtorEq, false_and, exists_false] at $h:ident <;>
-         first
-           | (obtain ⟨$q:ident, $hq:ident, $h:ident⟩ := $h:ident; (repeat' split at $h:ident) <;> subst $h:ident)
-           | subst $h:ident))
-
-/-- unfold the queue step `hq` too -/
-syntax "q_unfold " ident : tactic
-macro_rules
-  | `(tactic| q_unfold $hq:ident) => `(tactic|
-      (simp only [QueueSM.step?] at $hq:ident <;> (repeat' split at $hq:ident) <;>
-       simp only [Option.some.injEq, reduceCtorEq] at $hq:ident <;> subst $hq:ident))
-
-section proj
-variable (s : State α) (lv : List (List α)) (k : CK)
-omit [DecidableEq α]
-
-@[simp] theorem afterPop_rpc : (afterPop s lv).rpc = s.rpc := by
-  unfold afterPop; split <;> (try split) <;> rfl
-@[simp] theorem afterPop_ppc : (afterPop s lv).ppc = s.ppc := by
-  unfold afterPop; split <;> (try split) <;> rfl
-@[simp] theorem afterPop_fut : (afterPop s lv).fut = s.fut := by
-  unfold afterPop; split <;> (try split) <;> rfl
-@[simp] theorem afterPop_want : (afterPop s lv).want = s.want := by
-  unfold afterPop; split <;> (try split) <;> rfl
-@[simp] theorem afterPop_work : (afterPop s lv).work = s.work := by
-  unfold afterPop; split <;> (try split) <;> rfl
-@[simp] theorem afterPop_wpc : (afterPop s lv).wpc = s.wpc := by
-  unfold afterPop; split <;> (try split) <;> rfl
-@[simp] theorem afterPop_hdr : (afterPop s lv).hdr = s.hdr := by
-  unfold afterPop; split <;> (try split) <;> rfl
-@[simp] theorem afterPop_nIn : (afterPop s lv).nIn = s.nIn := by
-  unfold afterPop; split <;> (try split) <;> rfl
-@[simp] theorem afterPop_nOut : (afterPop s lv).nOut = s.nOut := by
-  unfold afterPop; split <;> (try split) <;> rfl
-@[simp] theorem afterPop_inputDone : (afterPop s lv).inputDone = s.inputDone := by
-  unfold afterPop; split <;> (try split) <;> rfl
-theorem afterPop_cpc : (afterPop s lv).cpc = .readPop ∨ ∃ r, (afterPop s lv).cpc = .ret r := by
-  unfold afterPop; split <;> (try split) <;> simp
-
-@[simp] theorem afterClose_rpc : (afterClose s k).rpc = s.rpc := by cases k <;> rfl
-@[simp] theorem afterClose_ppc : (afterClose s k).ppc = s.ppc := by cases k <;> rfl
-@[simp] theorem afterClose_fut : (afterClose s k).fut = s.fut := by cases k <;> rfl
-@[simp] theorem afterClose_want : (afterClose s k).want = s.want := by cases k <;> rfl
-@[simp] theorem afterClose_work : (afterClose s k).work = s.work := by cases k <;> rfl
-@[simp] theorem afterClose_wpc : (afterClose s k).wpc = s.wpc := by cases k <;> rfl
-@[simp] theorem afterClose_hdr : (afterClose s k).hdr = s.hdr := by cases k <;> rfl
-@[simp] theorem afterClose_nIn : (afterClose s k).nIn = s.nIn := by cases k <;> rfl
-@[simp] theorem afterClose_nOut : (afterClose s k).nOut = s.nOut := by cases k <;> rfl
-@[simp] theorem afterClose_inputDone : (afterClose s k).inputDone = s.inputDone := by cases k <;> rfl
-theorem afterClose_cpc : (afterClose s k).cpc = .dtorJoinP ∨ ∃ r, (afterClose s k).cpc = .ret r := by
-  cases k <;> simp [afterClose]
-
-end proj
-
-/-! ## pc correspondence: where a thread is in the pipeline ↔ where it is in the queue machines -/
-
-/-- thread is inside push(id) -/
-def inPush (p : QueueSM.Pc Nat) (id : Nat) : Prop :=
-  p = .pushEntered id ∨ p = .pushPolling id ∨ p = .pushMustWait id ∨ p = .pushReady id
-
-/-- read thread ↔ its pc in the input queue -/
-def rOk : RPc α → QueueSM.Pc Nat → Prop
-  | .pushing id _ _, p => inPush p id
-  | _, p => p = .idle
-
-/-- parser thread ↔ its pc in the input queue -/
-def pOkIn : PPc α → QueueSM.Pc Nat → Prop
-  | .popWait, p => p = .idle ∨ p = .popWaiting
-  | .sdInRun _, p => p = .sdEntered ∨ p = .sdFlagged
-  | _, p => p = .idle
-
-/-- parser thread ↔ its pc in the osmdata queue -/
-def pOkOut : PPc α → QueueSM.Pc Nat → Prop
-  | .pushing id _ _, p => inPush p id
-  | _, p => p = .idle
-
-/-- consumer ↔ its pc in the osmdata queue -/
-def cOk : CPc α → QueueSM.Pc Nat → Prop
-  | .readWaitPop, p => p = .idle ∨ p = .popWaiting
-  | .eodSdRun, p | .closeSdRun _, p | .dtorSdRun, p => p = .sdEntered ∨ p = .sdFlagged
-  | _, p => p = .idle
-
-/-- The pc-correspondence invariant. -/
-structure PcInv (s : State α) : Prop where
-  rIn : rOk s.rpc (s.inq.pc tR)
-  pIn : pOkIn s.ppc (s.inq.pc tP)
-  pOut : pOkOut s.ppc (s.outq.pc tP)
-  cOut : cOk s.cpc (s.outq.pc tC)
-  othIn : ∀ t, t ≠ tR → t ≠ tP → s.inq.pc t = .idle
-  othOut : ∀ t, t ≠ tP → t ≠ tC → s.outq.pc t = .idle
-
-
-syntax "pc_close " ident ident : tactic
-macro_rules
-  | `(tactic| pc_close $s:ident $ih:ident) => `(tactic|
-      first
-        | exact $ih
-        | (simp_all [rOk, pOkIn, pOkOut, cOk, inPush, setPc_apply, rCont, pCont, tR, tP, tC]; done)
-        | (cases ‹RK› <;> simp_all [rOk, pOkIn, pOkOut, cOk, inPush, setPc_apply, rCont, pCont, tR, tP, tC]; done)
-        | (cases ‹PK› <;> simp_all [rOk, pOkIn, pOkOut, cOk, inPush, setPc_apply, rCont, pCont, tR, tP, tC]; done)
-        | (cases hh : State.rpc $s <;> simp_all [rOk, pOkIn, pOkOut, cOk, inPush, setPc_apply, rCont, pCont, tR, tP, tC]; done)
-        | (cases hh : State.ppc $s <;> simp_all [rOk, pOkIn, pOkOut, cOk, inPush, setPc_apply, rCont, pCont, tR, tP, tC]; done)
-        | (cases hh : State.cpc $s <;> simp_all [rOk, pOkIn, pOkOut, cOk, inPush, setPc_apply, rCont, pCont, tR, tP, tC]; done)
-        | (rcases afterPop_cpc $s ‹List (List _)› with h | ⟨r, h⟩ <;> simp_all [cOk]; done)
-        | (rcases afterClose_cpc $s ‹CK› with h | ⟨r, h⟩ <;> simp_all [cOk]; done))
-
-set_option maxHeartbeats 1600000 in
-theorem pc_rIn (c : Cfg α) : ∀ s, (machine c).Reachable s → rOk s.rpc (s.inq.pc tR) := by
-  apply Machine.invariant
-  · simp [machine, init, QueueSM.init, rOk]
-  · intro s e s' _ ih hst
-    plv_cases e with hst q hq
-    all_goals (try q_unfold hq)
-    all_goals pc_close s ih
-
-set_option maxHeartbeats 1600000 in
-theorem pc_pIn (c : Cfg α) : ∀ s, (machine c).Reachable s → pOkIn s.ppc (s.inq.pc tP) := by
-  apply Machine.invariant
-  · simp [machine, init, QueueSM.init, pOkIn]
-  · intro s e s' _ ih hst
-    plv_cases e with hst q hq
-    all_goals (try q_unfold hq)
-    all_goals pc_close s ih
-
-set_option maxHeartbeats 1600000 in
-theorem pc_pOut (c : Cfg α) : ∀ s, (machine c).Reachable s → pOkOut s.ppc (s.outq.pc tP) := by
-  apply Machine.invariant
-  · simp [machine, init, QueueSM.init, pOkOut]
-  · intro s e s' _ ih hst
-    plv_cases e with hst q hq
-    all_goals (try q_unfold hq)
-    all_goals pc_close s ih
-
-set_option maxHeartbeats 1600000 in
-theorem pc_cOut (c : Cfg α) : ∀ s, (machine c).Reachable s → cOk s.cpc (s.outq.pc tC) := by
-  apply Machine.invariant
-  · simp [machine, init, QueueSM.init, cOk]
-  · intro s e s' _ ih hst
-    plv_cases e with hst q hq
-    all_goals (try q_unfold hq)
-    all_goals pc_close s ih
-
-set_option maxHeartbeats 1600000 in
-theorem pc_othIn (c : Cfg α) : ∀ s, (machine c).Reachable s → ∀ t, t ≠ tR → t ≠ tP → s.inq.pc t = .idle := by
-  apply Machine.invariant
-  · simp [machine, init, QueueSM.init]
-  · intro s e s' _ ih hst
-    plv_cases e with hst q hq
-    all_goals (try q_unfold hq)
-    all_goals pc_close s ih
-
-set_option maxHeartbeats 1600000 in
-theorem pc_othOut (c : Cfg α) : ∀ s, (machine c).Reachable s → ∀ t, t ≠ tP → t ≠ tC → s.outq.pc t = .idle := by
-  apply Machine.invariant
-  · simp [machine, init, QueueSM.init]
-  · intro s e s' _ ih hst
-    plv_cases e with hst q hq
-    all_goals (try q_unfold hq)
-    all_goals pc_close s ih
-
-theorem pcInv (c : Cfg α) (s : State α) (h : (machine c).Reachable s) : PcInv s :=
-  ⟨pc_rIn c s h, pc_pIn c s h, pc_pOut c s h, pc_cOut c s h, pc_othIn c s h, pc_othOut c s h⟩
-
-end Live
-
-namespace Live
-
-/-! ## enabledness helpers -/
-
-theorem en (c : Cfg α) (s : State α) (ev : Ev α) (hc : ev.isCall = false)
-    (h : (step? c s ev).isSome = true) : ∃ e s', e.isCall = false ∧ (machine c).Step s e s' := by
-  obtain ⟨s', hs⟩ := Option.isSome_iff_exists.mp h
-  exact ⟨ev, s', hc, hs⟩
-
-/-- a thread inside push() has an enabled queue step of one of four kinds -/
-theorem q_push_enabled (qc : QueueSM.Cfg) (q : QueueSM.State Nat) (t : Tid) (id : Nat)
-    (h : inPush (q.pc t) id) :
-    (QueueSM.step? qc q (.pushTest t q.inUse)).isSome = true ∨
-    (QueueSM.step? qc q (.pushSize t q.items.length)).isSome = true ∨
-    (QueueSM.step? qc q (.pushFullWaited t q.items.length)).isSome = true ∨
-    (∃ w, (QueueSM.step? qc q (.pushLocked t (q.items.length + 1) w)).isSome = true) := by
-  rcases h with h | h | h | h
-  · left; simp only [QueueSM.step?, h]; cases q.inUse <;> simp <;> split <;> simp
-  · right; left; simp only [QueueSM.step?, h]; simp; split <;> simp
-  · right; right; left; simp [QueueSM.step?, h]
-  · right; right; right
-    rcases CondVar.all_or_unnotified q.waiters with hall | ⟨w, hw⟩
-    · exact ⟨none, by simp [QueueSM.step?, h, CondVar.notifyOneOk, hall]⟩
-    · exact ⟨some w, by simp [QueueSM.step?, h, CondVar.notifyOneOk, hw]⟩
-
-/-- a thread inside shutdown() has an enabled queue step -/
-theorem q_sd_enabled (qc : QueueSM.Cfg) (q : QueueSM.State Nat) (t : Tid)
-    (h : q.pc t = .sdEntered ∨ q.pc t = .sdFlagged) :
-    (QueueSM.step? qc q (.sdFlag t)).isSome = true ∨ (QueueSM.step? qc q (.sdLocked t)).isSome = true := by
-  rcases h with h | h
-  · left; simp [QueueSM.step?, h]
-  · right; simp [QueueSM.step?, h]
-
-end Live
-
-/-- The read thread never blocks: while it has not returned, one of its own steps is enabled
-    (its only wait is the POLLING wait of a bounded push). -/
-theorem read_thread_enabled (c : Cfg α) (s : State α) (h : (machine c).Reachable s) (hr : s.rpc ≠ .done) :
-    ∃ e s', e.isCall = false ∧ (machine c).Step s e s' := by
-  have hpc := (Live.pcInv c s h).rIn
-  cases hrpc : s.rpc with
-  | done => exact absurd hrpc hr
-  | loop => exact Live.en c s (.rTestDone s.stop) rfl (by simp [step?, hrpc])
-  | reading =>
-    by_cases h1 : c.readFault = some s.reads
-    · exact Live.en c s (.rRead (.exc 1)) rfl (by simp [step?, hrpc, h1])
-    · by_cases h2 : s.reads < c.chunkEnd.length
-      · exact Live.en c s (.rRead (.chunk s.reads)) rfl (by simp [step?, hrpc, h1, h2])
-      · exact Live.en c s (.rRead .eod) rfl (by simp [step?, hrpc, h1, h2])
-  | closing =>
-    refine Live.en c s (.rCloseDec (!c.closeFault)) rfl ?_
-    simp only [step?, hrpc]; cases c.closeFault <;> simp
-  | push v k =>
-    rw [hrpc] at hpc
-    simp only [Live.rOk] at hpc
-    exact Live.en c s (.qi (.pushEnter tR (2 * s.nIn))) rfl (by simp [step?, hrpc, QueueSM.step?, hpc])
-  | pushing id v k =>
-    rw [hrpc] at hpc
-    simp only [Live.rOk] at hpc
-    rcases Live.q_push_enabled c.inqC s.inq tR id hpc with h1 | h1 | h1 | ⟨w, h1⟩
-    · exact Live.en c s (.qi (.pushTest tR s.inq.inUse)) rfl (by simpa [step?, hrpc] using h1)
-    · exact Live.en c s (.qi (.pushSize tR s.inq.items.length)) rfl (by simpa [step?, hrpc] using h1)
-    · exact Live.en c s (.qi (.pushFullWaited tR s.inq.items.length)) rfl (by simpa [step?, hrpc] using h1)
-    · exact Live.en c s (.qi (.pushLocked tR (s.inq.items.length + 1) w)) rfl (by simpa [step?, hrpc] using h1)
-  | pushed id v k => exact Live.en c s .rSet rfl (by simp [step?, hrpc])
-
-namespace Live
-
-/-- a consumer blocked in wait() whose predicate holds can wake up, if it is the only consumer and
-    nobody else is between the flag store and the notify_all of a shutdown() -/
-theorem q_wake_enabled (qc : QueueSM.Cfg) (q : QueueSM.State Nat) (hq : (QueueSM.machine Nat qc).Reachable q)
-    (t : Tid) (ht : q.pc t = .popWaiting) (hp : QueueSM.pred q = true)
-    (hoth : ∀ u, u ≠ t → q.pc u ≠ .popWaiting ∧ q.pc u ≠ .sdFlagged) :
-    (QueueSM.step? qc q (.popWake t q.items.length q.items.head?)).isSome = true := by
-  rcases C19.blocked_consumer_can_progress qc q hq t ht hp with ⟨w, s', hst⟩ | ⟨u, s', hst⟩
-  · by_cases hw : w = t
-    · subst hw
-      simp only [Machine.Step, QueueSM.machine] at hst
-      simp [hst]
-    · have : q.pc w = .popWaiting := by
-        simp only [Machine.Step, QueueSM.machine, QueueSM.step?] at hst
-        split at hst
-        · rename_i hg; exact hg.1
-        · simp at hst
-      exact absurd this (hoth w hw).1
-  · have hu : q.pc u = .sdFlagged := by
-      simp only [Machine.Step, QueueSM.machine, QueueSM.step?] at hst
-      split at hst
-      · assumption
-      · simp at hst
-    by_cases hut : u = t
-    · subst hut; rw [ht] at hu; cases hu
-    · exact absurd hu (hoth u hut).2
-
-/-! ## the parser thread -/
-
-/-- Data invariant of Parser::run() (ASSUMED by the progress theorems below; it belongs to the order
-    property C05): the parser has not consumed more than it has, what it has is inside the file, and
-    for PBF the data it has ends at a blob boundary, i.e. while objects are left the next blob is
-    complete.  (`Cfg.WF` does not relate `chunkEnd` and `blobEnd`; see the counterexample in the
-    final comment of this file.) -/
-def RunData (c : Cfg α) (s : State α) : Prop :=
-  s.next ≤ s.avail ∧ s.avail ≤ c.file.length ∧
-  (c.pbf = true → s.next < s.avail →
-    s.blob < c.blobEnd.length ∧ nth c.blobEnd s.blob ≤ s.avail ∧ s.next ≤ nth c.blobEnd s.blob) ∧
-  (c.nothing = true → s.cur = [])
-
-/-- futures of the input queue never hold a buffer, futures of the osmdata queue never hold an
-    input chunk (ASSUMED: typing of the two queues) -/
-def Typed (s : State α) : Prop :=
-  (∀ id l, s.ppc = .got id → s.fut id ≠ some (.buf l)) ∧
-  (∀ id i, s.cpc = .readGot id → s.fut id ≠ some (.chunk i))
-
-/-- the genuine wait states of the parser thread -/
-def ParserWaiting (c : Cfg α) (s : State α) : Prop :=
-  (s.ppc = .popWait ∧ s.inq.pc tP = .popWaiting) ∨
-  (∃ id, s.ppc = .got id ∧ s.fut id = none) ∨
-  (s.ppc = .run ∧ c.usePool = true ∧ c.wqMax ≠ 0 ∧ c.wqMax ≤ s.work.length)
-
-omit [DecidableEq α] in
-theorem wfLevels_single (l : List α) : wfLevels [l] = true := rfl
-
-theorem parser_run_enabled (c : Cfg α) (s : State α) (hd : RunData c s) (hp : s.ppc = .run) :
-    (∃ e s', Ev.isCall e = false ∧ (machine c).Step s e s') ∨ ParserWaiting c s := by
-  obtain ⟨hna, hal, hblob, hnoth⟩ := hd
-  by_cases hid : s.inputDone = false
-  · exact .inl (en c s (.pInUse s.inq.inUse) rfl (by simp only [step?, hp, hid]; cases s.inq.inUse <;> simp))
-  have hid : s.inputDone = true := by simpa using hid
-  by_cases hh : s.hdr = none
-  · exact .inl (en c s .pHeader rfl (by simp [step?, hp, hh]))
-  by_cases hf : c.parseFault = some s.next
-  · exact .inl (en c s .pThrow rfl (by simp [step?, hp, hf, hid]))
-  by_cases hlt : s.next < s.avail
-  · cases hpbf : c.pbf with
-    | false =>
-      have : s.next < c.file.length := by omega
-      left
-      refine en c s (.pObj false) rfl ?_
-      simp only [step?, hp, hpbf, hlt, List.getElem?_eq_getElem this]
-      simp [hh, hf]
-      split <;> simp
-    | true =>
-      obtain ⟨hb1, hb2, hb3⟩ := hblob hpbf hlt
-      by_cases hno : c.nothing = true
-      · exact .inl (en c s .pRunEnd rfl (by simp [step?, hp, hh, hnoth hno, hno]))
-      · have hno : c.nothing = false := by simpa using hno
-        cases hup : c.usePool with
-        | false =>
-          left
-          refine en c s (.pBlob [proj c (seg c s.next (nth c.blobEnd s.blob))]) rfl ?_
-          simp only [step?, hp, hpbf, hno, hup]
-          simp [hh, hb1, hb2, hb3, hf, wfLevels_single]
-          split <;> simp
-        | true =>
-          by_cases hw : c.wqMax = 0 ∨ s.work.length < c.wqMax
-          · left
-            refine en c s (.pBlob [proj c (seg c s.next (nth c.blobEnd s.blob))]) rfl ?_
-            simp only [step?, hp, hpbf, hno, hup]
-            simp [hh, hb1, hb2, hb3, hf, wfLevels_single, hw]
-          · right; right; right
-            exact ⟨hp, hup, by omega, by omega⟩
-  · have heq : s.next = s.avail := by omega
-    by_cases hcur : s.cur = []
-    · have hf' : ¬c.parseFault = some s.avail := heq ▸ hf
-      exact .inl (en c s .pRunEnd rfl (by simp [step?, hp, hh, hcur, hid, heq, hf']))
-    · exact .inl (en c s .pFlushFinal rfl (by simp [step?, hp, hid, heq, hcur]))
-
-/-- `parser_enabled_or_waiting`: while the parser thread has not returned, one of its steps is
-    enabled or it is in one of its three genuine wait states. -/
-theorem parser_enabled_or_waiting (c : Cfg α) (s : State α) (h : (machine c).Reachable s)
-    (hd : RunData c s) (hty : Typed s) (hp : s.ppc ≠ .done) :
-    (∃ e s', Ev.isCall e = false ∧ (machine c).Step s e s') ∨ ParserWaiting c s := by
-  have hpc := pcInv c s h
-  have hin := hpc.pIn
-  have hout := hpc.pOut
-  cases hppc : s.ppc with
-  | done => exact absurd hppc hp
-  | run => exact parser_run_enabled c s hd hppc
-  | popWait =>
-    rw [hppc] at hin
-    simp only [pOkIn] at hin
-    rcases hin with hi | hi
-    · left
-      cases hpred : QueueSM.pred s.inq with
-      | true => exact en c s (.qi (.popNow tP s.inq.items.length s.inq.items.head?)) rfl
-                  (by simp [step?, hppc, QueueSM.step?, hi, hpred])
-      | false => exact en c s (.qi (.popBlock tP)) rfl (by simp [step?, hppc, QueueSM.step?, hi, hpred])
-    · exact .inr (.inl ⟨hppc, hi⟩)
-  | got id =>
-    cases hf : s.fut id with
-    | none => exact .inr (.inr (.inl ⟨id, hppc, hf⟩))
-    | some v =>
-      left
-      cases v with
-      | buf l => exact absurd hf (hty.1 id l hppc)
-      | chunk i => exact en c s (.pGet (.chunk i)) rfl (by simp [step?, hppc, hf])
-      | eod => exact en c s (.pGet .eod) rfl (by simp [step?, hppc, hf])
-      | exc code => exact en c s (.pGet (.exc code)) rfl (by simp [step?, hppc, hf])
-  | sdIn k =>
-    rw [hppc] at hin
-    simp only [pOkIn] at hin
-    exact .inl (en c s (.qi (.sdEnter tP)) rfl (by simp [step?, hppc, QueueSM.step?, hin]))
-  | sdInRun k =>
-    rw [hppc] at hin
-    simp only [pOkIn] at hin
-    left
-    rcases q_sd_enabled c.inqC s.inq tP hin with h1 | h1
-    · exact en c s (.qi (.sdFlag tP)) rfl (by simpa [step?, hppc] using h1)
-    · exact en c s (.qi (.sdLocked tP)) rfl (by simpa [step?, hppc] using h1)
-  | push v k =>
-    rw [hppc] at hout
-    simp only [pOkOut] at hout
-    exact .inl (en c s (.qo (.pushEnter tP (2 * s.nOut + 1))) rfl (by simp [step?, hppc, QueueSM.step?, hout]))
-  | pushFut id k =>
-    rw [hppc] at hout
-    simp only [pOkOut] at hout
-    exact .inl (en c s (.qo (.pushEnter tP id)) rfl (by simp [step?, hppc, QueueSM.step?, hout]))
-  | pushing id ov k =>
-    rw [hppc] at hout
-    simp only [pOkOut] at hout
-    left
-    rcases q_push_enabled c.outqC s.outq tP id hout with h1 | h1 | h1 | ⟨w, h1⟩
-    · exact en c s (.qo (.pushTest tP s.outq.inUse)) rfl (by simpa [step?, hppc] using h1)
-    · exact en c s (.qo (.pushSize tP s.outq.items.length)) rfl (by simpa [step?, hppc] using h1)
-    · exact en c s (.qo (.pushFullWaited tP s.outq.items.length)) rfl (by simpa [step?, hppc] using h1)
-    · exact en c s (.qo (.pushLocked tP (s.outq.items.length + 1) w)) rfl (by simpa [step?, hppc] using h1)
-  | pushed id v k => exact .inl (en c s .pSet rfl (by simp [step?, hppc]))
-  | caught code => exact .inl (en c s .pCatch rfl (by simp [step?, hppc]))
-
-/-! ## the pool -/
-
-/-- while jobs are queued and there is a worker, a worker step is enabled -/
-theorem worker_enabled (c : Cfg α) (s : State α) (hw : s.work ≠ []) (hne : c.workers ≠ []) :
-    ∃ e s', Ev.isCall e = false ∧ (machine c).Step s e s' := by
-  obtain ⟨w, hwm⟩ := List.exists_mem_of_ne_nil _ hne
-  cases hwp : s.wpc w with
-  | some id => exact en c s (.wDone w) rfl (by simp [step?, hwp])
-  | none =>
-    cases hwk : s.work with
-    | nil => exact absurd hwk hw
-    | cons id rest => exact en c s (.wStart w) rfl (by simp [step?, hwp, hwm, hwk])
-
-/-- a running job can finish -/
-theorem running_enabled (c : Cfg α) (s : State α) (w : Tid) (id : Nat) (hwp : s.wpc w = some id) :
-    ∃ e s', Ev.isCall e = false ∧ (machine c).Step s e s' :=
-  en c s (.wDone w) rfl (by simp [step?, hwp])
-
-end Live
-
-namespace Live
-
-/-! ## wait-for invariants of the deadlock-freedom argument -/
-
-/-- parser pcs that are only reached after the header promise has been set -/
-def postHdr : PPc α → Bool
-  | .sdIn k | .sdInRun k | .push _ k | .pushFut _ k | .pushing _ _ k | .pushed _ _ k => k != .run
-  | .done => true
-  | _ => false
-
-set_option maxHeartbeats 1600000 in
-theorem inv_hdr (c : Cfg α) : ∀ s, (machine c).Reachable s → s.hdr = none → postHdr s.ppc = false := by
-  apply Machine.invariant
-  · simp [machine, init, postHdr]
-  · intro s e s' _ ih hst
-    plv_cases e with hst q hq
-    all_goals first
-      | exact ih
-      | (simp_all [postHdr, pCont]; done)
-      | (cases ‹PK› <;> simp_all [postHdr, pCont]; done)
-      | (cases hh : s.ppc <;> simp_all [postHdr, pCont]; done)
-
-/-- (I3, PROVED: `hdrSet`) the parser thread only returns after the header promise is set -/
-def HdrSet (s : State α) : Prop := s.ppc = .done → s.hdr ≠ none
-
-theorem hdrSet (c : Cfg α) (s : State α) (h : (machine c).Reachable s) : HdrSet s := by
-  intro hp hn
-  have := inv_hdr c s h hn
-  simp [hp, postHdr] at this
-
-/-- (I1, ASSUMED) the read thread sets every promise before it pushes the next future / returns:
-    once it has returned, a future the parser holds is ready -/
-def InqFutReady (s : State α) : Prop := s.rpc = .done → ∀ id, s.ppc = .got id → s.fut id ≠ none
-
-/-- (I2, ASSUMED) the read thread's last push is the end marker and the parser stops popping after
-    it: if the read thread has returned and the parser is blocked inside wait_and_pop(), the wait
-    predicate `!in_use || !empty` holds -/
-def InqMarker (s : State α) : Prop :=
-  s.rpc = .done → s.ppc = .popWait → s.inq.pc tP = .popWaiting → QueueSM.pred s.inq = true
-
-/-- (I4, ASSUMED) same for the osmdata queue: the parser's last push is the end marker -/
-def OutqMarker (s : State α) : Prop :=
-  s.ppc = .done → s.cpc = .readWaitPop → s.outq.pc tC = .popWaiting → QueueSM.pred s.outq = true
-
-/-- (I5, ASSUMED) a future of the osmdata queue that is not ready once the parser has returned
-    belongs to a submitted blob: its job is still in the work queue or running -/
-def OutFutReady (c : Cfg α) (s : State α) : Prop :=
-  s.ppc = .done → ∀ id, s.cpc = .readGot id → s.fut id = none →
-    (s.work ≠ [] ∧ c.usePool = true) ∨ ∃ w j, s.wpc w = some j
-
-end Live
-
-open Live in
-/-- `_partial` version of C07 `no_stuck_state`: while an API call is in progress some internal step
-    is enabled, PROVIDED the state satisfies the data/typing invariants `RunData`, `Typed` and the
-    four wait-for invariants `InqFutReady`, `InqMarker`, `OutqMarker`, `OutFutReady` (stated above,
-    not proved here; `HdrSet` and the pc correspondence `PcInv` are proved). -/
-theorem no_stuck_state_partial (c : Cfg α) (wf : c.WF) (s : State α) (h : (machine c).Reachable s)
-    (hd : RunData c s) (hty : Typed s) (i1 : InqFutReady s) (i2 : InqMarker s) (i4 : OutqMarker s)
-    (i5 : OutFutReady c s)
+/-- C07 `no_stuck_state`: in every reachable state of the pipeline of a well-formed configuration in
+    which an API call is in progress (the consumer is neither between calls nor destructed) some
+    internal step of the pipeline is enabled. -/
+theorem no_stuck_state (c : Cfg α) (wf : c.WF) (s : State α) (h : (machine c).Reachable s)
     (h1 : s.cpc ≠ .idle) (h2 : s.cpc ≠ .dead) :
-    ∃ e s', e.isCall = false ∧ (machine c).Step s e s' := by
-  by_cases hr : s.rpc = .done
-  case neg => exact read_thread_enabled c s h hr
-  have hpc := pcInv c s h
-  have hrin := hpc.rIn
-  rw [hr] at hrin
-  simp only [rOk] at hrin
-  by_cases hp : s.ppc = .done
-  case neg =>
-    rcases parser_enabled_or_waiting c s h hd hty hp with hen | hw | ⟨id, hg, hf⟩ | ⟨_, hup, hq0, hql⟩
-    · exact hen
-    · -- (w1) blocked in wait_and_pop(m_input_queue)
-      obtain ⟨hpw, hpq⟩ := hw
-      have hpred := i2 hr hpw hpq
-      have := q_wake_enabled c.inqC s.inq (Q.reachable_inq c s h) tP hpq hpred (by
-        intro u hu
-        by_cases hur : u = tR
-        · subst hur; rw [hrin]; simp
-        · rw [hpc.othIn u hur hu]; simp)
-      exact en c s (.qi (.popWake tP s.inq.items.length s.inq.items.head?)) rfl
-        (by simpa [step?, hpw] using this)
-    · exact absurd hf (i1 hr id hg)
-    · have hwk : s.work ≠ [] := by
-        intro h0; rw [h0] at hql; simp at hql; exact hq0 hql
-      exact worker_enabled c s hwk (wf.workers_ne hup)
-  case pos =>
-    have hpout := hpc.pOut
-    rw [hp] at hpout
-    simp only [pOkOut] at hpout
-    have hco := hpc.cOut
-    cases hc : s.cpc with
-    | idle => exact absurd hc h1
-    | dead => exact absurd hc h2
-    | hdrWait =>
-      have hh := hdrSet c s h hp
-      cases hhd : s.hdr with
-      | none => exact absurd hhd hh
-      | some o => cases o <;> exact en c s .cHeaderGet rfl (by simp [step?, hc, hhd])
-    | readPop =>
-      refine en c s (.cInUse s.outq.inUse) rfl ?_
-      simp only [step?, hc]; cases s.outq.inUse <;> simp
-    | readWaitPop =>
-      rw [hc] at hco
-      simp only [cOk] at hco
-      rcases hco with hi | hi
-      · cases hpred : QueueSM.pred s.outq with
-        | true => exact en c s (.qo (.popNow tC s.outq.items.length s.outq.items.head?)) rfl
-                    (by simp [step?, hc, QueueSM.step?, hi, hpred])
-        | false => exact en c s (.qo (.popBlock tC)) rfl (by simp [step?, hc, QueueSM.step?, hi, hpred])
-      · have hpred := i4 hp hc hi
-        have := q_wake_enabled c.outqC s.outq (Q.reachable_outq c s h) tC hi hpred (by
-          intro u hu
-          by_cases hup : u = tP
-          · subst hup; rw [hpout]; simp
-          · rw [hpc.othOut u hup hu]; simp)
-        exact en c s (.qo (.popWake tC s.outq.items.length s.outq.items.head?)) rfl
-          (by simpa [step?, hc] using this)
-    | readGot id =>
-      cases hf : s.fut id with
-      | some v =>
-        cases v with
-        | chunk i => exact absurd hf (hty.2 id i hc)
-        | buf l => exact en c s (.cGet (.buf l)) rfl (by simp [step?, hc, hf])
-        | eod => exact en c s (.cGet .eod) rfl (by simp [step?, hc, hf])
-        | exc code => exact en c s (.cGet (.exc code)) rfl (by simp [step?, hc, hf])
-      | none =>
-        rcases i5 hp id hc hf with ⟨hwk, hup⟩ | ⟨w, j, hw⟩
-        · exact worker_enabled c s hwk (wf.workers_ne hup)
-        · exact running_enabled c s w j hw
-    | eodSd =>
-      rw [hc] at hco; simp only [cOk] at hco
-      exact en c s (.qo (.sdEnter tC)) rfl (by simp [step?, hc, QueueSM.step?, hco])
-    | closeSd k =>
-      rw [hc] at hco; simp only [cOk] at hco
-      exact en c s (.qo (.sdEnter tC)) rfl (by simp [step?, hc, QueueSM.step?, hco])
-    | dtorSd =>
-      rw [hc] at hco; simp only [cOk] at hco
-      exact en c s (.qo (.sdEnter tC)) rfl (by simp [step?, hc, QueueSM.step?, hco])
-    | eodSdRun =>
-      rw [hc] at hco; simp only [cOk] at hco
-      rcases q_sd_enabled c.outqC s.outq tC hco with g | g
-      · exact en c s (.qo (.sdFlag tC)) rfl (by simpa [step?, hc] using g)
-      · exact en c s (.qo (.sdLocked tC)) rfl (by simpa [step?, hc] using g)
-    | closeSdRun k =>
-      rw [hc] at hco; simp only [cOk] at hco
-      rcases q_sd_enabled c.outqC s.outq tC hco with g | g
-      · exact en c s (.qo (.sdFlag tC)) rfl (by simpa [step?, hc] using g)
-      · exact en c s (.qo (.sdLocked tC)) rfl (by simpa [step?, hc] using g)
-    | dtorSdRun =>
-      rw [hc] at hco; simp only [cOk] at hco
-      rcases q_sd_enabled c.outqC s.outq tC hco with g | g
-      · exact en c s (.qo (.sdFlag tC)) rfl (by simpa [step?, hc] using g)
-      · exact en c s (.qo (.sdLocked tC)) rfl (by simpa [step?, hc] using g)
-    | eofJoin => exact en c s .cJoinR rfl (by simp [step?, hc, hr])
-    | closeJoin k => exact en c s .cJoinR rfl (by simp [step?, hc, hr])
-    | dtorJoinP => exact en c s .cJoinP rfl (by simp [step?, hc, hp])
-    | ret r => exact en c s (.cRet r) rfl (by simp [step?, hc])
+    ∃ e s', e.isCall = false ∧ (machine c).Step s e s' :=
+  no_stuck_state' c wf s h (Live.outq_marker c s h) h1 h2
 
-/-
-FINDING (model level).  `no_stuck_state` with `Cfg.WF` alone is FALSE: `Cfg.WF` does not relate
-`chunkEnd` and `blobEnd`, and the PBF branch of `step?` has no event for "input ended inside a
-blob" (the real PBFParser throws pbf_error there).  Stuck run (WF holds): pbf = true, file = [a, b],
-chunkEnd = [1, 2], blobEnd = [2], usePool = false, nothing = false, no faults.  Read thread delivers
-chunk 0; the client calls the destructor (stop := true); read thread: rTestDone true, rCloseDec true,
-pushes the end marker, returns.  Parser: pops chunk 0 (avail = 1), pHeader, pops the end marker
-(inputDone = true), shuts the input queue down, is back in `run` with next = 0 < avail = 1 but
-nth blobEnd 0 = 2 > avail: pBlob, pObj (pbf), pThrow, pFlush*, pNewBuf, pRunEnd, pInUse are all
-disabled.  The consumer reaches `dtorJoinP` and waits for `ppc = done` for ever: no step at all is
-enabled.  Hence the hypothesis `RunData` (third component: the data the parser holds ends at a
-blob boundary) of `parser_enabled_or_waiting` / `no_stuck_state_partial`.
--/
+/-- the same from `Live.AvailMono` (kept: earlier name) -/
+theorem no_stuck_state_of_mono (c : Cfg α) (wf : c.WF) (hmono : Live.AvailMono c) (s : State α)
+    (h : (machine c).Reachable s) (h1 : s.cpc ≠ .idle) (h2 : s.cpc ≠ .dead) :
+    ∃ e s', e.isCall = false ∧ (machine c).Step s e s' :=
+  no_stuck_state'_partial c wf hmono s h (Live.outq_marker c s h) h1 h2
 
 end Osmium.Pipeline
